@@ -21,6 +21,7 @@
 package iterator
 
 import (
+	"fmt"
 	"reflect"
 	"sort"
 
@@ -41,6 +42,23 @@ type Context struct {
 	// Per-root-iterator data
 	EventReceiver        events.DataEventReceiver
 	TryAddLocalReference TryAddLocalReference
+	referenceDepth       uint64
+}
+
+// Called before following a pointer or walking the contents of a slice or
+// map. Every cycle in a Go value passes through one of these, so a value that
+// keeps descending is refused (by panicking with an error, like every other
+// iterator failure) instead of recursing until the stack is gone.
+func (_this *Context) enterReference() {
+	_this.referenceDepth++
+	if maxDepth := _this.Configuration.Rules.MaxContainerDepth; maxDepth > 0 && _this.referenceDepth > maxDepth {
+		panic(fmt.Errorf("value is nested more than %d levels deep (cyclic values require Iterator.RecursionSupport)",
+			_this.Configuration.Rules.MaxContainerDepth))
+	}
+}
+
+func (_this *Context) leaveReference() {
+	_this.referenceDepth--
 }
 
 func (_this *Context) NotifyNil() {
